@@ -87,15 +87,15 @@ def r04_1(ctx):
     ctx.floor("R04.1", 28)
 
 
-def eval_init(model, W=None, H=None, halfway=False, dt=None, entropy="symbol"):
+def eval_init(model, W=None, H=None, halfway=False, dt=None, entropy="symbol", t0=None, t1=None, tol=Fraction(0)):
     fi = model.func(BI, "BrownianInterval.__init__")
     bcls = model.cls(BI, "BrownianInterval")
-    T0, T1 = nf.sym("T0", True), nf.sym("T1", True)
-    decisions = {"t0 > t1": False, "tol <= 0.0": False, "tol < 0.0": False, "tol == 0.0": True}
+    T0, T1 = nf.sym("T0", True) if t0 is None else t0, nf.sym("T1", True) if t1 is None else t1
+    decisions = {"t0 > t1": False, "tol <= 0.0": False, "tol < 0.0": False, "tol == 0.0": True} if tol == 0 else {}
     hooks = bk.BrownianHooks(decisions)
     it = Interp(model, hooks)
     me = Obj("bm", cls=bcls)
-    kwargs = dict(t0=T0, t1=T1, size=bk.SIZE, entropy=nf.sym("ENTROPY", True) if entropy == "symbol" else entropy, tol=Fraction(0),
+    kwargs = dict(t0=T0, t1=T1, size=bk.SIZE, entropy=nf.sym("ENTROPY", True) if entropy == "symbol" else entropy, tol=tol,
                   pool_size=nf.sym("POOL", True), halfway_tree=halfway, levy_area_approximation="space-time",
                   W=W, H=H, dt=dt)
     it.call_function(fi, [me], kwargs)
@@ -120,6 +120,25 @@ def r04_2(ctx):
     rep.check(ok, "R04.2", astq.loc(fi), f"{fi.key}::R04.2::top-level-scaling",
               f"top-level (W, H) = (`{W}`, `{H}`): must be distinct unit normals scaled by sqrt(t1-t0) and "
               f"sqrt((t1-t0)/12)", "W ~ N(0, t1-t0), H ~ N(0, (t1-t0)/12), independent")
+    # with a tolerance the root node covers [round(t0), round(t1)] and every bridge below it is scaled by node lengths: the
+    # root's own variance must be the length of the node (concrete end points off the tolerance grid, exact rationals)
+    n_q = 0
+    for t0c, t1c, tol in ((Fraction(0), Fraction(14, 100), Fraction(1, 10)), (Fraction(1, 3), Fraction(1), Fraction(1, 100)),
+                          (Fraction(-7, 1000), Fraction(2, 3), Fraction(1, 1000)), (Fraction(0), Fraction(1), Fraction(1, 10))):
+        rq = eval_init(model, t0=t0c, t1=t1c, tol=tol)
+        me = rq["me"]
+        Wq, Hq = me.attrs["_w_h"]
+        a, b = me.attrs.get("_start"), me.attrs.get("_end")
+        if not (isinstance(a, Fraction) and isinstance(b, Fraction)):
+            raise AnalysisError("root end points of a concrete quantised scenario are not numbers", where=astq.loc(fi))
+        nWq, nHq = bk.noise_atoms(Wq), bk.noise_atoms(Hq)
+        okq = len(nWq) == 1 and len(nHq) == 1 and nf.equal(Wq * Wq, Rat.atom(nWq[0]) * Rat.atom(nWq[0]) * (b - a)) \
+            and nf.equal(Hq * Hq, Rat.atom(nHq[0]) * Rat.atom(nHq[0]) * ((b - a) / 12))
+        n_q += 1
+        rep.check(okq, "R04.2", astq.loc(fi), f"{fi.key}::R04.2::top-level-scaling::t0={t0c},t1={t1c},tol={tol}",
+                  f"BrownianInterval({t0c}, {t1c}, tol={tol}): the root node covers [{a}, {b}] (length {b - a}) but its "
+                  f"(W, H) = (`{Wq}`, `{Hq}`): the variances must be the node's length and a twelfth of it, as the "
+                  f"bridges below the root assume", "Var W = end - start, Var H = (end - start)/12 of the root node")
     Wu, Hu = nf.sym("W_user"), nf.sym("H_user")
     r2 = eval_init(model, W=Wu, H=Hu)
     wh2 = r2["me"].attrs.get("_w_h")
@@ -134,7 +153,7 @@ def r04_2(ctx):
     ok3 = isinstance(val, tuple) and len(val) == 2 and nf.equal(val[0], Wu) and nf.equal(val[1], Hu)
     rep.check(ok3, "R04.2", astq.loc(vf), f"{vf.key}::R04.2::top-value",
               f"the top node's value is `{val}`, not the stored (W, H)", "top value is the stored pair")
-    ctx.floor("R04.2", 3)
+    ctx.floor("R04.2", 7)
 
 
 def _seed_atoms(x):
